@@ -157,6 +157,12 @@ def kind_of(t):
         if tag == '*' and ks and all(k == 'num' for k in ks):
             return 'num'
         return None
+    if tag in ('phi', 'after', 'it') and type(t[-1]) is str:
+        return t[-1]
+    if tag == 'afterlocal':
+        return kind_of(t[2])
+    if tag == 'hoist':
+        return kind_of(t[1])
     if tag == 'call':
         f = t[1]
         name = None
@@ -1358,7 +1364,14 @@ class PE:
     def exec_for(self, s, env, effects):
         it = self.ev(s.iter, env)
         items = iter_items(it) if self.unroll else None
-        if items is not None and len(items) <= self.unroll and not self.has_flow_escape(s.body) and not s.orelse:
+        if items is None and it[0] in ('tuple', 'list') and len(it[1]) <= 8 and not self.has_flow_escape(s.body) and not s.orelse:
+            # a literal sequence of at most 8 elements: canonical form is the unrolled loop
+            # (makes `for w in W` + running counter and `for k, w in enumerate(W)` + closed form the same term)
+            items = list(it[1])
+            limit = 8
+        else:
+            limit = self.unroll
+        if items is not None and len(items) <= limit and not self.has_flow_escape(s.body) and not s.orelse:
             for x in items:
                 self.bind_target(s.target, x, env)
                 if self.exec_block(s.body, env, effects):
@@ -1383,8 +1396,16 @@ class PE:
         carried.sort(key=lambda v: (skey(env[v]), v))
         inits = tuple(env[v] for v in carried)
         env2 = dict(env)
+
+        def ksuf(t):
+            k = kind_of(t)
+            return (k,) if k == 'num' else ()
+
+        def itsym(path=()):
+            suf = ('num',) if (kind == 'for' and it[0] == 'range') else ()
+            return ('it', L) + path + suf
         for rank, v in enumerate(carried):
-            env2[v] = ('phi', L, rank)
+            env2[v] = ('phi', L, rank) + ksuf(inits[rank])
         for v in assigned:
             if v not in env and v not in tn:
                 env2.pop(v, None)
@@ -1395,7 +1416,7 @@ class PE:
             if v not in carried and v not in tn and is_alloc(env2[v]):
                 env2[v] = ('hoist', env2[v])
         if kind == 'for':
-            self.bind_pattern_syms(s.target, env2, lambda path: ('it', L) + path)
+            self.bind_pattern_syms(s.target, env2, itsym)
             cond = None
         else:
             cond = self.ev(s.test, env2)
@@ -1408,7 +1429,7 @@ class PE:
         if kind == 'for' and it[0] == 'range' and is_int(it[1]) and is_int(it[3]) and it[3][1] != 0 and isinstance(s.target, ast.Name):
             ivs = {}
             for rank, v in enumerate(carried):
-                phi = ('phi', L, rank)
+                phi = ('phi', L, rank) + ksuf(inits[rank])
                 nx = nexts[rank]
                 k = None
                 if nx[0] == '+' and phi in nx[1] and list(nx[1]).count(phi) == 1:
@@ -1430,15 +1451,16 @@ class PE:
                     ivs[v] = (rank, k)
             if ivs:
                 a0, st = it[1][1], it[3][1]
-                itsym = ('it', L)
-                cnt = itsym if (a0 == 0 and st == 1) else mk_bin('//', mk_bin('-', itsym, C(a0), self.opts), C(st), self.opts)
+                its = itsym()
+                cnt = its if (a0 == 0 and st == 1) else mk_bin('//', mk_bin('-', its, C(a0), self.opts), C(st), self.opts)
                 carried2 = [v for v in carried if v not in ivs]
                 self.nloops, self.ntry = save[0], save[1]
                 del self.sm.funcs[save[2]:]
                 self.sm.undefined[:] = save[3]
                 env2 = dict(env)
+                inits2 = tuple(env[v] for v in carried2)
                 for rank, v in enumerate(carried2):
-                    env2[v] = ('phi', L, rank)
+                    env2[v] = ('phi', L, rank) + ksuf(inits2[rank])
                 for v, (rank, k) in ivs.items():
                     env2[v] = mk_bin('+', inits[rank], mk_bin('*', k, cnt, self.opts), self.opts)
                 for v in assigned:
@@ -1447,7 +1469,7 @@ class PE:
                 for v in list(env2):
                     if v not in carried2 and v not in ivs and v not in tn and is_alloc(env2[v]):
                         env2[v] = ('hoist', env2[v])
-                self.bind_pattern_syms(s.target, env2, lambda path: ('it', L) + path)
+                self.bind_pattern_syms(s.target, env2, itsym)
                 body_eff = []
                 self.exec_block(s.body, env2, body_eff)
                 n_it = None
@@ -1467,7 +1489,7 @@ class PE:
         else_eff = []
         # after the loop
         for rank, v in enumerate(carried):
-            env[v] = ('after', L, rank)
+            env[v] = ('after', L, rank) + ksuf(inits[rank])
         for v in assigned:
             if v not in carried and v in env2 and v not in tn:
                 env[v] = ('afterlocal', L, env2[v])
@@ -1682,7 +1704,7 @@ def _show(t, d=0):
     if tag == 'after':
         return 'after%d.%d' % (t[1], t[2])
     if tag == 'it':
-        return 'it%d%s' % (t[1], ''.join('.%d' % x for x in t[2:]))
+        return 'it%d%s' % (t[1], ''.join('.%d' % x for x in t[2:] if type(x) is int))
     if tag == 'bv':
         return 'bv%d_%d%s' % (t[1], t[2], ''.join('.%d' % x for x in t[3:]))
     if tag in ('+', '-', '*', '//', '/', '%', '**', '<<', '>>', '&', '|', '^'):
